@@ -101,6 +101,13 @@ CLAIMED["C09"] = dict(
    ref="DESIGN.md §4 C09")
 
 
+CLAIMED["C11"] = dict(
+   text="Decides conservation of the total number of seconds in the routines that split and recombine it, for all inputs, as polynomial identities over their statements (a truncating division is a quotient symbol determined by its operands and x % K is x - K*(x / K); a comparison is a 0/1 symbol determined by the polynomial it tests; both paths of every branch are summarised): divrem returns q, r with q*d + r == n; dt_tadd_s returns carry*(86400 + corr) + 3600h' + 60m' + s' == 3600h + 60m + s + durs on its regular path, and its leap-second-day path is confined to remainders >= 86400; __sexy_to_daisy yields 86400*(day - unix base) + 3600h + 60m + s == the epoch value, including the borrow chain and re-normalisation for negative epochs, with 0 <= s, m < 60 and 0 <= h < 24 at the stores (interval analysis) and the base being 1970-01-01; __to_unix_epoch is the inverse linear form with the same base. Structurally: dt_dtadd takes the day carry from the unreduced count (carry = dv / 86400 before dv %= 86400), passes the reduced seconds to dt_tadd_s, adds its carry and hands the sum to the date adder; the three duration scalers (dt_dtadd, __sexy_add, ddiff's __strf_tot_secs) use 3600 / 60 / 1 through their fall-through chains, in 64 bits.",
+   note="Machine overflow is not modelled by the identities (the split in dt_dtadd keeps dt_tadd_s's argument below one day). That the date adder moves the date by the carried days is C03 (not claimed); leap second corrections (corr != 0) and 24:00:00 decay are not decided.",
+   technique="static analysis: polynomial symbolic summaries of loop-free routines (path-complete), interval abstract interpretation, CFG order / data-flow rules, sibling agreement of unit tables",
+   ref="DESIGN.md §4 C11")
+
+
 def main():
     props = [json.loads(l)["id"] for l in open(os.path.join(HERE, "properties.jsonl"))]
     checks = []
